@@ -656,12 +656,12 @@ def _native_tables(tier="quick", seed=0):
         for C in range(1, maxdim + 1):
             cells = [(r, cc) for r in range(R) for cc in range(C)]
             ops = [("m", a, b) for a in cells for b in cells if a != b] + [("s", a, None) for a in cells]
-            seqs = itertools.product(ops, repeat=depth) if len(ops) ** depth <= (4000 if tier == "quick" else 200000) else None
+            seqs = itertools.product(ops, repeat=depth) if len(ops) ** depth <= (4000 if tier == "quick" else 20000) else None
             if seqs is None:
                 import random
 
                 rnd = random.Random(seed + R * 10 + C)
-                seqs = [tuple(rnd.choice(ops) for _ in range(depth)) for _ in range(1500 if tier == "quick" else 20000)]
+                seqs = [tuple(rnd.choice(ops) for _ in range(depth)) for _ in range(1500 if tier == "quick" else 6000)]
             prs = Presentation()
             slide = prs.slides.add_slide(prs.slide_layouts[6])
             for seq in seqs:
